@@ -1121,6 +1121,18 @@ def gen_special_cases(rng, now_ms):
                 for op in ('<=', '>=', '<', '>'):
                     q = ('C', [('path', [('k', 'a')]), ('call', [], name, [('U', '-', ('num', str(-n))) if n < 0 else ('num', str(n))])], [op])
                     out.append((q, {"a": now_ms + n * unit + delta}, {}))
+    # fractional arguments count whole units (hours(1.5) is hours(1), hours(-0.5) is now()): a record between the
+    # truncated and the fractional instant tells the two readings apart
+    for name, unit in UNIT_MS.items():
+        for lit, whole, frac in (("1.5", 1, 1.5), ("0.9", 0, 0.9), ("2.25", 2, 2.25)):
+            mid = int((whole + frac) / 2 * unit)
+            if (frac - whole) / 2 * unit < 900000:
+                continue        # the clock is read again when the query is prepared: keep a margin of fifteen minutes
+            for sign in (1, -1):
+                arg = ('num', lit) if sign > 0 else ('U', '-', ('num', lit))
+                for op in ('<', '>'):
+                    q = ('C', [('path', [('k', 'a')]), ('call', [], name, [arg])], [op])
+                    out.append((q, {"a": now_ms + sign * mid}, {}))
     for delta in (-600000, 600000):
         for op in ('<=', '>='):
             out.append((('C', [('path', [('k', 'a')]), ('call', [], 'now', [])], [op]), {"a": now_ms + delta}, {}))
